@@ -35,6 +35,7 @@ ALPHABET = ['a', 'Z', '0', '-', '_', '.', '+', ',', '/', '\n', ' ', 'é', 'ſ', 
 ALPHABET2 = ['a', '1', '.', ':', '[', ']', '%', '/']
 
 util = None
+_POOL = ThreadPoolExecutor(max_workers=3)      # driver processes answering concurrently
 
 
 def init(repo):
@@ -583,6 +584,21 @@ def bool_port_refused(c):
     return isinstance(v, bool) and c.impl in ('TypeError', 'ValueError')
 
 
+def model_parallel(ctx, lines, parts=3):
+    """the driver's answers; big batches are split over a few driver processes"""
+    if len(lines) < 30000:
+        return ctx.model(lines)
+    size = (len(lines) + parts - 1) // parts
+    futs = [_POOL.submit(ctx.model, lines[i:i + size]) for i in range(0, len(lines), size)]
+    out = []
+    for f in futs:
+        r = f.result()
+        if r is None:
+            return None
+        out += r
+    return out
+
+
 def evaluate(ctx, cases, res, tag):
     md = ctx.facts.get('max_str_digits', sys.get_int_max_str_digits())
     for c in cases:
@@ -591,7 +607,7 @@ def evaluate(ctx, cases, res, tag):
     if skipped:
         res.count('not_observable:' + skipped[0].op, len(skipped))
         cases = [c for c in cases if c.line is not None]
-    model = ctx.model([c.line for c in cases])
+    model = model_parallel(ctx, [c.line for c in cases])
     for i, c in enumerate(cases):
         if c.viol:
             res.violation(c.viol[0], c.record(), c.viol[1], impl=c.impl, scope=tag)
@@ -676,9 +692,6 @@ def first_difference(impl_runs, model_text):
         if bhi <= ahi:
             j += 1
     return None
-
-
-_POOL = ThreadPoolExecutor(max_workers=3)      # driver processes answering sweeps concurrently
 
 
 def check_table(ctx, res, name, fn, pre, suf, segments, md):
